@@ -15,13 +15,16 @@ for d in sorted(glob.glob("/verif/seeded/*")):
         inconc = re.findall(r"^INCONCLUSIVE property=\S+ (.*)$", txt, re.M)
         ok = re.findall(r"^OK property=.*$", txt, re.M)
         outcome = "VIOLATION" if viol else ("INCONCLUSIVE" if inconc else ("OK" if ok else "unfinished"))
-        runs.append({"cmd": "VERIF_REPO=<worktree with patch> ./check %s --tier quick" % prop, "outcome": outcome,
+        cmdf = lg[:-4] + ".cmd"
+        cmd = open(cmdf).read().strip() if os.path.exists(cmdf) else "VERIF_REPO=<worktree of /repo HEAD + patch> ./check %s --tier quick" % prop
+        hs = re.findall(r"^  \[C\d+\] (\S+)\s+(pass\*?|fail|inconclusive)", txt, re.M)
+        runs.append({"cmd": cmd, "outcome": outcome, "harnesses": ["%s:%s" % h for h in hs],
                      "failed_assertions": failed[:4], "inconclusive": inconc[:3],
                      "replay": [os.path.basename(v) for v in viol[:2]]})
     if runs:
         meta["checks_run"] = runs
         meta["detected"] = any(r["outcome"] == "VIOLATION" for r in runs)
     json.dump(meta, open(mp, "w"), indent=1)
-    rows.append((mid, meta["property"], meta.get("detected"), "; ".join("%s:%s" % (r["cmd"].split()[5], r["outcome"]) for r in meta.get("checks_run", []))))
+    rows.append((mid, meta["property"], meta.get("detected"), "; ".join("%s:%s" % (" ".join(r["cmd"].split("./check ")[1:]), r["outcome"]) for r in meta.get("checks_run", []))))
 for r in rows:
     print("%-8s %-4s detected=%-5s %s" % r)
